@@ -10,7 +10,8 @@
 //   pre <filename>                 create an unrelated file (marker content)
 //   C <a|w> <start_sec>            construct the sink
 //   W <id> <size> <ts_sec>         one write_log call with a statement of exactly <size> bytes carrying <id>
-//   R <a|w> <start_sec>            restart = destroy + construct
+//   R <a|w> <start_sec> [1]        restart = destroy + construct; with 1: the ACTIVE file (logfile.log) disappears while no sink
+//                                  is open (crash between rename and re-open, or an external tool moved it away)
 //   X                              destroy
 //   endbeh
 // statement text: '<' id ':' size '>' 'x'... '\n'  (exactly size bytes), so whole / in order can be judged from files.
@@ -213,8 +214,9 @@ int main(int argc, char** argv)
     }
     else if (w == "C" || w == "R")
     {
-      std::string m; long long st; ls >> m >> st;
+      std::string m; long long st; int rmactive = 0; ls >> m >> st; ls >> rmactive;
       sink.reset();   // R: destroy first (C: no sink yet)
+      if (rmactive) { std::error_code ec; fs::remove(dir / "logfile.log", ec); }
       std::string err = construct(m[0], st);
       emit(w.c_str(), err);
     }
